@@ -18,7 +18,7 @@ func init() {
 			"(amount) the paid amount is that sum, through WithdrawFee when set, for that wallet, with new on-chain balance 0; " +
 			"(consume) every path from settlement's success edge to a return passes a ledger write of Neg(credit read) to the same account; " +
 			"(exclusive) balance read, settlement and consume happen under one mutex held to the return; " +
-			"(fail-clean) no ledger write is reachable without settlement having succeeded. Round 2: (balance-errors) shared with C03; (fail-clean:shared-digits) no in-place big.Int mutation of a handed-out balance in the payment package; (deposit-cache) balanceCache.Set records every event on every path.",
+			"(fail-clean) no ledger write is reachable without settlement having succeeded. Round 2: (balance-errors) shared with C03; (fail-clean:shared-digits) no in-place big.Int mutation of a handed-out balance in the payment package; (deposit-cache) balanceCache.Set records every event on every path. Round 5: (bigint-private), (key-spelling).",
 		NotDecided: []string{"not decided: on-chain effects of the settlement transaction; fee and minimum arithmetic on concrete values; staleness of the deposit cache after settlement"},
 	}
 }
